@@ -1,7 +1,7 @@
 \* quick tier: 2 faults on the most concurrent shape (batch 2, 2 fetchers, 2 submitters), honest source
 CONSTANTS
   MaxIdx = 4
-  FaultKinds = {"short", "fetchErr", "quota", "fatal", "rootErr", "sthErr", "consErr", "cancel", "revoke"}
+  FaultKinds = {"short", "emptyPage", "fetchErr", "quota", "fatal", "rootErr", "sthErr", "consErr", "cancel", "revoke"}
   KeepHist = FALSE
   SrcSizes = {3}
   Growths = {1}
@@ -16,6 +16,6 @@ CONSTANTS
   MaxRestarts = 1
 INIT MCInit
 NEXT Next
-INVARIANTS TypeOK Mirror Bounded Gate NoConflict QuotaRetried Complete VerbatimBad PrefixOK
+INVARIANTS TypeOK Mirror Bounded Gate NoConflict QuotaRetried Complete PosCovered VerbatimBad PrefixOK
 PROPERTIES GateAct QuotaAct
 CHECK_DEADLOCK FALSE
